@@ -16,6 +16,10 @@ def harnesses(tier):
                     claims='mp::internal::ReadNames: reads inside the buffer, every line reported once in order with \\n / \\r\\n stripped, missing final newline => ReadError',
                     tv_cases=2000 if not place else 0, flags=['--object-bits', '10'])
         h.label = 'h_split[%s]' % ('end' if place else 'start'); hs.append(h)
+    for place in ([] if tier == 'quick' else [[], ['PLACE_END']]):
+        h = Harness('h_name_lookup', 'names', unwind=12, timeout=3600, mem_gb=44, bounds='file <= 8 bytes, any line, state constructed directly', assumptions=A + ['NameProvider state (names_) constructed directly as ReadNames leaves it: line starts plus end marker'],
+                    defines=['MAXLEN=8'] + place, claims='NameProvider::name(i) returns line i without its line end, reading only inside the mapped file', known=['empty_first_line'], tv_cases=2000 if not place else 0, flags=['--object-bits', '10'])
+        h.label = 'h_name_lookup[%s]' % ('end' if place else 'start'); hs.append(h)
     if tier == 'quick': return hs      # the whole NameProvider pipeline (h_names) needs > 10 min: thorough tier only
     for place in ([], ['PLACE_END']):
         h = Harness('h_names', 'names', unwind=L + 4, timeout=600 if tier == 'quick' else 3600, mem_gb=40, bounds='file <= %d bytes' % L, assumptions=A, defines=['MAXLEN=%d' % L] + place,
